@@ -41,7 +41,7 @@ TIERS = {
     "thorough": {"shards": 16, "cases": 32000, "timeout": 3000},
 }
 FLOORS = {
-    "quick": {"counts": {"g1_lines_checked": 60000, "hook_invocations_checked": 100000,
+    "quick": {"counts": {"bound_method_hooks": 150, "hooks_registered_twice": 100, "g1_lines_checked": 60000, "hook_invocations_checked": 100000,
                          "extrusion_amounts_checked": 50000, "rapids_checked": 700,
                          "absolute_extrusion_moves": 15000, "relative_extrusion_moves": 15000,
                          "hooks_added_inside_context": 100, "hooks_removed_inside_context": 20,
@@ -73,6 +73,10 @@ class Probe:
         self.calls.append((tuple(origin), tuple(target), seen, dict(params)))
         return params
 
+    def as_method(self, origin, target, params, state):
+        """The same hook as a bound method (a new object on every attribute access, equal by ==)."""
+        return self(origin, target, params, state)
+
 
 def run_case(ctx, col, case):
     rng = ctx.rng(case)
@@ -89,7 +93,19 @@ def run_case(ctx, col, case):
     g.set_axis(x=start[0], y=start[1], z=start[2])
     g.add_hook(first)
     g.add_hook(ext)
-    g.add_hook(last)
+    # half of the histories register the last probe as a bound method, and half of those register it a
+    # second time (a start-up profile applied twice): a hook is still called once per move
+    if rng.random() < 0.5:
+        g.add_hook(last.as_method)
+        col.count("bound_method_hooks")
+        if rng.random() < 0.5:
+            g.add_hook(last.as_method)
+            col.count("hooks_registered_twice")
+    else:
+        g.add_hook(last)
+        if rng.random() < 0.3:
+            g.add_hook(last)
+            col.count("hooks_registered_twice")
     s.drain()
     # extruder axis model
     E = {"pos": Fraction(0), "mode": "M82", "since_reset": False, "tainted": False}
